@@ -8,7 +8,7 @@
      wf                         invariant of every state reached from a read file
      denote                     the meaning of a file by MCNP's rule (cell parameter, else i-th entry of the vector)
 *)
-From Coq Require Import List String Ascii ZArith Bool Lia Arith.
+From Coq Require Import List String Ascii ZArith Bool Lia Arith Permutation.
 From MPV Require Import Model.Wire Model.Place.
 Import ListNotations.
 Open Scope list_scope.
@@ -2093,25 +2093,525 @@ Proof.
   destruct (idel_plain q g Hp) as [A [_ C]]. rewrite A, (C Hn). reflexivity.
 Qed.
 
-Definition struct_ok (mode : list particle) (c : cell) : bool :=
-  andb (imp_parts_ok (c_imp c)) (imp_keys_ok mode (c_imp c)).
+(* --- imp_parts_ok / imp_keys_ok only look at the keys, classifiers and classifier orders of the groups *)
+Definition shape (gr : igroup) : list particle * list particle * list particle :=
+  (fst gr, t_parts (snd gr), t_order (snd gr)).
 
-(* the structural part of [clean], for the cells of the problem and for the cell that is being built *)
-Definition sstruct (s : state) : bool :=
-  andb (forallb (struct_ok (s_mode s)) (s_cells s))
-       (match s_scratch s with Some (c, _) => struct_ok (s_mode s) c | None => true end).
+Lemma shape_ikeys : forall g g', map shape g = map shape g' -> ikeys g = ikeys g'.
+Proof.
+  induction g as [|[ks t] r IH]; intros [|[ks' t'] r'] H; simpl in H; try discriminate; auto.
+  inversion H. rewrite !ikeys_cons. subst. f_equal. apply IH. assumption.
+Qed.
 
-Definition target_plain (s : state) (t : target) : bool :=
-  match t with
-  | TScratch => match s_scratch s with Some (c, _) => plainok (c_imp c) | None => true end
-  | TCell n => match find_cell n (s_cells s) with Some c => plainok (c_imp c) | None => true end
+Lemma shape_parts_of : forall g g' o, map shape g = map shape g' -> parts_of o g = parts_of o g'.
+Proof.
+  induction g as [|[ks t] r IH]; intros [|[ks' t'] r'] o H; simpl in H; try discriminate; auto.
+  inversion H. subst. unfold parts_of in *. simpl. destruct (mem o ks'); auto.
+Qed.
+
+Lemma forallb_ext_all : forall {A} (f h : A -> bool) l, (forall x, f x = h x) -> forallb f l = forallb h l.
+Proof. induction l as [|x r IH]; simpl; intros H; auto. rewrite (H x), IH; auto. Qed.
+
+Lemma shape_group_ok : forall g g' gr gr', map shape g = map shape g' -> shape gr = shape gr' ->
+  group_ok g gr = group_ok g' gr'.
+Proof.
+  intros g g' [ks t] [ks' t'] H Hs. unfold shape in Hs. simpl in Hs. inversion Hs. subst.
+  unfold group_ok. simpl. rewrite H2, H3. rewrite (shape_ikeys _ _ H).
+  f_equal. apply forallb_ext_all. intro o. rewrite (shape_parts_of _ _ o H). reflexivity.
+Qed.
+
+Lemma shape_forallb_group_ok : forall g g', map shape g = map shape g' ->
+  forall l l', map shape l = map shape l' -> forallb (group_ok g) l = forallb (group_ok g') l'.
+Proof.
+  intros g g' H. induction l as [|x r IH]; intros [|y s] Hl; simpl in Hl; try discriminate; auto.
+  assert (Hxy : shape x = shape y) by congruence.
+  assert (Hrs : map shape r = map shape s) by congruence.
+  simpl. rewrite (shape_group_ok g g' x y H Hxy). f_equal. apply IH. exact Hrs.
+Qed.
+
+Lemma shape_imp_parts_ok : forall g g', map shape g = map shape g' -> imp_parts_ok g = imp_parts_ok g'.
+Proof.
+  intros g g' H. unfold imp_parts_ok. rewrite (shape_ikeys _ _ H). f_equal.
+  apply shape_forallb_group_ok; auto.
+Qed.
+
+Lemma shape_imp_keys_ok : forall mode g g', map shape g = map shape g' -> imp_keys_ok mode g = imp_keys_ok mode g'.
+Proof.
+  intros mode. unfold imp_keys_ok.
+  induction g as [|[ks t] r IH]; intros [|[ks' t'] r'] H; simpl in H; try discriminate; auto.
+  inversion H. subst. simpl. rewrite H2. f_equal. apply IH. assumption.
+Qed.
+
+Lemma shape_singles : forall g g', map shape g = map shape g' -> singles g = singles g'.
+Proof.
+  unfold singles.
+  induction g as [|[ks t] r IH]; intros [|[ks' t'] r'] H; simpl in H; try discriminate; auto.
+  inversion H. subst. simpl. f_equal. apply IH. assumption.
+Qed.
+
+Lemma iupd_shape : forall q v g, map shape (iupd q (fun t => mkT v (t_parts t) (t_order t)) g) = map shape g.
+Proof.
+  intros q v. induction g as [|[ks t] r IH]; simpl; auto.
+  destruct (mem q ks); simpl; [reflexivity|]. rewrite IH. reflexivity.
+Qed.
+
+Lemma iset_existing_shape : forall q v g, singles g = true -> map shape (iset_existing q v g) = map shape g.
+Proof.
+  intros q v. induction g as [|[ks t] r IH]; intros S; [reflexivity|].
+  simpl in S. apply andb_true_iff in S. destruct S as [Sk Sr].
+  destruct ks as [|k [|k2 ks]]; try discriminate.
+  cbn [iset_existing]. rewrite mem_single. destruct (Nat.eqb q k) eqn:E.
+  - apply Nat.eqb_eq in E. subst k. rewrite remove_p_self. reflexivity.
+  - cbn [map]. rewrite (IH Sr). reflexivity.
+Qed.
+
+(* appending a tree for a particle the cell holds nothing for *)
+Lemma mem_ikeys_app_l : forall o g h, mem o (ikeys g) = true -> mem o (ikeys (g ++ h)) = true.
+Proof. intros. rewrite ikeys_app, mem_app, H. reflexivity. Qed.
+
+Lemma parts_of_app_key : forall o g h, mem o (ikeys g) = true -> parts_of o (g ++ h) = parts_of o g.
+Proof.
+  intros o g h H. unfold parts_of. rewrite ifind_app. apply ifind_key in H. destruct H as [t Ht]. rewrite Ht. reflexivity.
+Qed.
+
+Lemma append_fresh_parts_ok : forall g q v, imp_parts_ok g = true -> mem q (ikeys g) = false ->
+  imp_parts_ok (g ++ [([q], mkT v [q] [q])]) = true.
+Proof.
+  intros g q v H Hq. unfold imp_parts_ok in *. apply andb_true_iff in H. destruct H as [Hn Hg].
+  rewrite ikeys_app, ikeys_single. rewrite (nodup_p_snoc _ _ Hn Hq). simpl.
+  rewrite forallb_app. apply andb_true_iff. split.
+  - rewrite forallb_forall in *. intros gr Hin. specialize (Hg gr Hin).
+    unfold group_ok in *. apply andb_true_iff in Hg. destruct Hg as [H1 H2]. rewrite H1. simpl.
+    rewrite forallb_forall in *. intros o Ho. specialize (H2 o Ho).
+    apply andb_true_iff in H2. destruct H2 as [A B].
+    rewrite (mem_ikeys_app_l o g _ A). simpl. rewrite (parts_of_app_key o g _ A). exact B.
+  - cbn [forallb]. rewrite andb_true_r. unfold group_ok. simpl. rewrite Nat.eqb_refl. simpl.
+    rewrite andb_true_r.
+    assert (K : mem q (ikeys (g ++ [([q], mkT v [q] [q])])) = true).
+    { rewrite ikeys_app, ikeys_single, mem_app, mem_single, Nat.eqb_refl. apply orb_true_r. }
+    rewrite K. simpl.
+    unfold parts_of. rewrite ifind_app.
+    destruct (ifind q g) eqn:Ef.
+    + assert (mem q (ikeys g) = true) by (apply ifind_key; eauto). congruence.
+    + cbn [ifind]. rewrite mem_single, Nat.eqb_refl. unfold seteq, subset. simpl. rewrite Nat.eqb_refl. reflexivity.
+Qed.
+
+Lemma append_fresh_keys_ok : forall mode g q v, imp_keys_ok mode g = true ->
+  imp_keys_ok mode (g ++ [([q], mkT v [q] [q])]) = true.
+Proof.
+  intros mode g q v H. unfold imp_keys_ok in *. rewrite forallb_app, H. simpl.
+  rewrite orb_false_r, andb_true_r. unfold subset. simpl. destruct (mem q mode); reflexivity.
+Qed.
+
+Lemma iset_singles_struct : forall l m mode q v g, singles g = true ->
+  imp_parts_ok g = true -> imp_keys_ok mode g = true ->
+  singles (iset l m q v g) = true /\ imp_parts_ok (iset l m q v g) = true /\ imp_keys_ok mode (iset l m q v g) = true.
+Proof.
+  intros l m mode q v g S P K. unfold iset. destruct (mem q (ikeys g)) eqn:Ek.
+  - pose proof (iset_existing_shape q v g S) as Sh.
+    rewrite (shape_singles _ _ Sh), (shape_imp_parts_ok _ _ Sh), (shape_imp_keys_ok mode _ _ Sh). auto.
+  - split; [|split].
+    + unfold singles in *. rewrite forallb_app, S. reflexivity.
+    + apply append_fresh_parts_ok; auto.
+    + apply append_fresh_keys_ok; auto.
+Qed.
+
+Lemma iset_all_singles_struct : forall mode' mode v g, singles g = true ->
+  imp_parts_ok g = true -> imp_keys_ok mode g = true ->
+  singles (iset_all mode' v g) = true /\ imp_parts_ok (iset_all mode' v g) = true /\ imp_keys_ok mode (iset_all mode' v g) = true.
+Proof.
+  intros mode' mode v. unfold iset_all. induction mode' as [|q r IH]; simpl; intros g S P K; auto.
+  destruct (mem q (ikeys g)) eqn:Ek.
+  - pose proof (iupd_shape q v g) as Sh. apply IH.
+    + rewrite (shape_singles _ _ Sh). exact S.
+    + rewrite (shape_imp_parts_ok _ _ Sh). exact P.
+    + rewrite (shape_imp_keys_ok mode _ _ Sh). exact K.
+  - apply IH.
+    + unfold singles in *. rewrite forallb_app, S. reflexivity.
+    + apply append_fresh_parts_ok; auto.
+    + apply append_fresh_keys_ok; auto.
+Qed.
+
+(* --- _unshare_tree keeps the partition condition *)
+
+Lemma mem_remove_p : forall o q l, mem o (remove_p q l) = andb (mem o l) (negb (Nat.eqb o q)).
+Proof.
+  intros o q. induction l as [|x r IH]; simpl; auto.
+  destruct (Nat.eqb x q) eqn:E; simpl.
+  - rewrite IH. apply Nat.eqb_eq in E. subst x. destruct (Nat.eqb o q) eqn:E2; simpl.
+    + rewrite andb_false_r. reflexivity.
+    + reflexivity.
+  - rewrite IH. destruct (Nat.eqb o x) eqn:E2; simpl; auto.
+    apply Nat.eqb_eq in E2. subst x. rewrite E. reflexivity.
+Qed.
+
+Definition unshared (q : particle) (v : Z) (ks : list particle) (t : itree) : list igroup :=
+  match remove_p q ks with
+  | [] => [(ks, mkT v (t_parts t) (t_order t))]
+  | ks' => [([q], mkT v [q] [q]); (ks', mkT (t_val t) (remove_p q (t_parts t)) (remove_p q (t_order t)))]
   end.
 
-(* an importance is set / deleted only on a cell whose trees are plain (a cell made by Cell(), a cell whose
-   importances came from one-particle data cards); every other statement is unrestricted *)
+Lemma iset_existing_decomp : forall q v g, mem q (ikeys g) = true ->
+  exists pre ks t post, g = pre ++ (ks, t) :: post /\ mem q ks = true /\ mem q (ikeys pre) = false /\
+    iset_existing q v g = pre ++ unshared q v ks t ++ post.
+Proof.
+  intros q v. induction g as [|[ks t] r IH]; intros H; [discriminate|].
+  rewrite ikeys_cons, mem_app in H. cbn [iset_existing].
+  destruct (mem q ks) eqn:E.
+  - exists [], ks, t, r. repeat split; auto. unfold unshared. simpl. destruct (remove_p q ks); reflexivity.
+  - simpl in H. destruct (IH H) as [pre [ks0 [t0 [post [A [B [C D]]]]]]].
+    exists ((ks, t) :: pre), ks0, t0, post. repeat split; auto.
+    + rewrite A. reflexivity.
+    + rewrite ikeys_cons, mem_app, E, C. reflexivity.
+    + rewrite D. reflexivity.
+Qed.
+
+Lemma remove_p_notin : forall q l, ~ In q l -> remove_p q l = l.
+Proof.
+  intros q. induction l as [|x r IH]; simpl; intros N; auto.
+  destruct (Nat.eqb x q) eqn:E.
+  - apply Nat.eqb_eq in E. subst x. exfalso. apply N. auto.
+  - simpl. rewrite IH; auto.
+Qed.
+
+Lemma perm_remove_p : forall q l, NoDup l -> In q l -> Permutation l (q :: remove_p q l).
+Proof.
+  intros q. induction l as [|x r IH]; intros ND Hin; [contradiction|].
+  inversion ND; subst. simpl. destruct (Nat.eqb x q) eqn:E.
+  - apply Nat.eqb_eq in E. subst x. simpl. rewrite remove_p_notin; auto.
+  - simpl. destruct Hin as [->|Hin]; [rewrite Nat.eqb_refl in E; discriminate|].
+    eapply perm_trans; [apply perm_skip; apply IH; auto|]. apply perm_swap.
+Qed.
+
+Lemma NoDup_app_parts : forall {A} (a b : list A), NoDup (a ++ b) -> NoDup a /\ NoDup b.
+Proof.
+  induction a as [|x r IH]; simpl; intros b H.
+  - split; [constructor|exact H].
+  - inversion H; subst. destruct (IH b H3) as [A1 B1]. split; auto.
+    constructor; auto. intro I. apply H2. apply in_or_app. auto.
+Qed.
+
+Lemma nodup_split : forall a ks b q, nodup_p (a ++ ks ++ b) = true -> mem q ks = true ->
+  nodup_p (a ++ (q :: remove_p q ks) ++ b) = true.
+Proof.
+  intros a ks b q H Hq. apply nodup_p_NoDup. apply nodup_p_NoDup in H. apply mem_In in Hq.
+  assert (NDks : NoDup ks).
+  { destruct (NoDup_app_parts _ _ H) as [_ X]. destruct (NoDup_app_parts _ _ X) as [Y _]. exact Y. }
+  eapply Permutation_NoDup; [|exact H].
+  apply Permutation_app_head. apply Permutation_app_tail. apply perm_remove_p; auto.
+Qed.
+
+Lemma nodup_app_disjoint : forall a b x, nodup_p (a ++ b) = true -> In x a -> In x b -> False.
+Proof.
+  intros a b x H Ha Hb. apply nodup_p_NoDup in H. revert H Ha. induction a as [|y r IH]; simpl; intros H Ha; [contradiction|].
+  inversion H; subst. destruct Ha as [->|Ha].
+  - apply H2. apply in_or_app. auto.
+  - apply IH; auto.
+Qed.
+
+Lemma parts_of_app : forall o a b,
+  parts_of o (a ++ b) = if mem o (ikeys a) then parts_of o a else parts_of o b.
+Proof.
+  intros o a b. unfold parts_of. rewrite ifind_app. destruct (mem o (ikeys a)) eqn:E.
+  - apply ifind_key in E. destruct E as [t Ht]. rewrite Ht. reflexivity.
+  - destruct (ifind o a) eqn:F; auto. assert (mem o (ikeys a) = true) by (apply ifind_key; eauto). congruence.
+Qed.
+
+Lemma In_group_keys : forall (gr : igroup) l k, In gr l -> In k (fst gr) -> In k (ikeys l).
+Proof. intros gr l k H Hk. unfold ikeys. apply in_flat_map. exists gr. auto. Qed.
+
+Lemma kind_ok_many : forall ks t q, group_kind_ok (ks, t) = true -> mem q ks = true -> remove_p q ks <> [] ->
+  subset (t_parts t) ks = true.
+Proof.
+  intros ks t q K Hq Hne. unfold group_kind_ok in K. simpl in K. destruct ks as [|a [|b r]].
+  - discriminate.
+  - exfalso. apply Hne. rewrite mem_single in Hq. apply Nat.eqb_eq in Hq. subst a. apply remove_p_self.
+  - exact K.
+Qed.
+
+Lemma kind_ok_intro : forall l t, l <> [] -> (forall o, In o (t_parts t) -> In o l) -> group_kind_ok (l, t) = true.
+Proof.
+  intros l t N H. unfold group_kind_ok. simpl.
+  destruct l as [|a [|b r]]; [exfalso; apply N; reflexivity|reflexivity|apply subset_In; exact H].
+Qed.
+
+Section Unshare.
+Variables (q : particle) (v : Z) (pre post : list igroup) (ks : list particle) (t : itree).
+Let g := pre ++ (ks, t) :: post.
+Let ks' := remove_p q ks.
+Let A : igroup := ([q], mkT v [q] [q]).
+Let B : igroup := (ks', mkT (t_val t) (remove_p q (t_parts t)) (remove_p q (t_order t))).
+Let g' := pre ++ A :: B :: post.
+Hypothesis Hq : mem q ks = true.
+Hypothesis Hpre : mem q (ikeys pre) = false.
+Hypothesis Hne : ks' <> [].
+Hypothesis HP : imp_parts_ok g = true.
+Hypothesis HK : forallb group_kind_ok g = true.
+
+Lemma u_keys_g : ikeys g = ikeys pre ++ ks ++ ikeys post.
+Proof. unfold g. rewrite ikeys_app, ikeys_cons. reflexivity. Qed.
+
+Lemma u_keys_g' : ikeys g' = ikeys pre ++ (q :: ks') ++ ikeys post.
+Proof. unfold g', A, B. rewrite ikeys_app, !ikeys_cons. simpl. reflexivity. Qed.
+
+Lemma u_mem_ks' : forall o, mem o ks' = andb (mem o ks) (negb (Nat.eqb o q)).
+Proof. intro o. unfold ks'. apply mem_remove_p. Qed.
+
+Lemma u_mem_keys : forall o, mem o (ikeys g') = mem o (ikeys g).
+Proof.
+  intro o. rewrite u_keys_g', u_keys_g, !mem_app. simpl. rewrite u_mem_ks'.
+  f_equal. f_equal. destruct (Nat.eqb o q) eqn:E; simpl.
+  - apply Nat.eqb_eq in E. subst o. rewrite Hq. reflexivity.
+  - rewrite andb_true_r. reflexivity.
+Qed.
+
+Lemma u_nodup_g : nodup_p (ikeys pre ++ ks ++ ikeys post) = true.
+Proof. rewrite <- u_keys_g. unfold imp_parts_ok in HP. apply andb_true_iff in HP. apply HP. Qed.
+
+Lemma u_nodup_g' : nodup_p (ikeys g') = true.
+Proof. rewrite u_keys_g'. apply nodup_split; [apply u_nodup_g|exact Hq]. Qed.
+
+Lemma u_gok : forall gr, In gr g -> group_ok g gr = true.
+Proof.
+  intros gr Hin. unfold imp_parts_ok in HP. apply andb_true_iff in HP. destruct HP as [_ H].
+  rewrite forallb_forall in H. auto.
+Qed.
+
+Lemma u_in_g : In (ks, t) g.
+Proof. unfold g. apply in_or_app. right. left. reflexivity. Qed.
+
+Lemma u_pre_disjoint : forall o, In o (ikeys pre) -> In o ks -> False.
+Proof.
+  intros o H1 H2. pose proof u_nodup_g as N. eapply (nodup_app_disjoint (ikeys pre) (ks ++ ikeys post) o N H1).
+  apply in_or_app. auto.
+Qed.
+
+Lemma u_post_disjoint : forall o, In o (ikeys post) -> In o ks -> False.
+Proof.
+  intros o H1 H2. pose proof u_nodup_g as N. apply nodup_p_NoDup in N.
+  destruct (NoDup_app_parts _ _ N) as [_ N2]. apply nodup_p_NoDup in N2.
+  eapply (nodup_app_disjoint ks (ikeys post) o N2); eauto.
+Qed.
+
+Lemma u_t : (forall o, In o ks -> In o (t_parts t)) /\ (forall o, In o (t_parts t) -> In o (t_order t)) /\
+            (forall o, In o (t_parts t) -> In o ks).
+Proof.
+  pose proof (u_gok _ u_in_g) as G. unfold group_ok in G. simpl in G.
+  apply andb_true_iff in G. destruct G as [G _]. apply andb_true_iff in G. destruct G as [G1 G2].
+  rewrite subset_In in G1, G2. split; [exact G1|]. split; [exact G2|].
+  pose proof HK as HK'. rewrite forallb_forall in HK'. pose proof (HK' _ u_in_g) as K.
+  pose proof (kind_ok_many ks t q K Hq Hne) as S. rewrite subset_In in S. exact S.
+Qed.
+
+Lemma u_parts_of_g : forall o, parts_of o g =
+  if mem o (ikeys pre) then parts_of o pre else if mem o ks then t_parts t else parts_of o post.
+Proof.
+  intro o. unfold g. rewrite parts_of_app. destruct (mem o (ikeys pre)); auto.
+  change ((ks, t) :: post) with ([(ks, t)] ++ post). rewrite parts_of_app, ikeys_single.
+  destruct (mem o ks) eqn:E; auto. unfold parts_of. simpl. rewrite E. reflexivity.
+Qed.
+
+Lemma u_parts_of_g' : forall o, parts_of o g' =
+  if mem o (ikeys pre) then parts_of o pre
+  else if Nat.eqb o q then [q]
+  else if mem o ks then remove_p q (t_parts t) else parts_of o post.
+Proof.
+  intro o. unfold g'. rewrite parts_of_app. destruct (mem o (ikeys pre)); auto.
+  change (A :: B :: post) with ([A] ++ [B] ++ post). rewrite parts_of_app. unfold A at 1. rewrite ikeys_single, mem_single.
+  destruct (Nat.eqb o q) eqn:E.
+  - unfold parts_of, A. simpl. rewrite E. reflexivity.
+  - rewrite parts_of_app. unfold B at 1. rewrite ikeys_single, u_mem_ks', E, andb_true_r.
+    destruct (mem o ks) eqn:E2; auto. unfold parts_of, B. simpl. rewrite u_mem_ks', E, E2. reflexivity.
+Qed.
+
+(* a group other than the one that is split names no particle of the split group *)
+Lemma u_other : forall gr, In gr pre \/ In gr post -> forall o, In o (t_parts (snd gr)) -> mem o ks = false.
+Proof.
+  intros gr Hgr o Ho. destruct (mem o ks) eqn:E; auto. exfalso. apply mem_In in E.
+  assert (Hin : In gr g). { unfold g. apply in_or_app. destruct Hgr; [left|right; right]; auto. }
+  pose proof (u_gok gr Hin) as G. unfold group_ok in G.
+  apply andb_true_iff in G. destruct G as [G G3]. apply andb_true_iff in G. destruct G as [G1 _].
+  rewrite subset_In in G1. rewrite forallb_forall in G3. specialize (G3 o Ho).
+  apply andb_true_iff in G3. destruct G3 as [_ G3]. unfold seteq in G3. apply andb_true_iff in G3. destruct G3 as [S1 S2].
+  rewrite subset_In in S1, S2.
+  destruct (mem o (ikeys pre)) eqn:Ep.
+  - apply mem_In in Ep. eapply u_pre_disjoint; eauto.
+  - (* parts_of o g = t_parts t *)
+    rewrite u_parts_of_g, Ep in S1, S2. assert (Em : mem o ks = true) by (apply mem_In; exact E). rewrite Em in S1, S2.
+    (* a key of gr is a key of the split group too *)
+    pose proof HK as HK'. rewrite forallb_forall in HK'. pose proof (HK' gr Hin) as K. unfold group_kind_ok in K.
+    destruct (fst gr) as [|k r] eqn:Ek; [discriminate|].
+    assert (Hk : In k (fst gr)) by (rewrite Ek; left; reflexivity).
+    assert (Hkt : In k ks). { apply u_t. apply S2. apply G1. left. reflexivity. }
+    destruct Hgr as [Hg|Hg].
+    + eapply u_pre_disjoint; [eapply In_group_keys; eauto|exact Hkt].
+    + eapply u_post_disjoint; [eapply In_group_keys; eauto|exact Hkt].
+Qed.
+
+Lemma u_gok_other : forall gr, In gr pre \/ In gr post -> group_ok g' gr = true.
+Proof.
+  intros gr Hgr.
+  assert (Hin : In gr g). { unfold g. apply in_or_app. destruct Hgr; [left|right; right]; auto. }
+  pose proof (u_gok gr Hin) as G. unfold group_ok in *.
+  apply andb_true_iff in G. destruct G as [G G3]. rewrite G. simpl.
+  apply forallb_forall. intros o Ho. rewrite forallb_forall in G3. specialize (G3 o Ho). rewrite u_mem_keys.
+  apply andb_true_iff in G3. destruct G3 as [G31 G32]. rewrite G31. simpl.
+  pose proof (u_other gr Hgr o Ho) as N.
+  assert (Nq : Nat.eqb o q = false).
+  { destruct (Nat.eqb o q) eqn:E; auto. apply Nat.eqb_eq in E. subst o. congruence. }
+  rewrite u_parts_of_g', Nq, N. rewrite u_parts_of_g, N in G32. exact G32.
+Qed.
+
+Lemma u_gok_A : group_ok g' A = true.
+Proof.
+  unfold group_ok, A. simpl. rewrite Nat.eqb_refl. simpl. rewrite andb_true_r.
+  assert (K : mem q (ikeys g') = true).
+  { rewrite u_keys_g', !mem_app. simpl. rewrite Nat.eqb_refl. simpl. apply orb_true_r. }
+  rewrite K. simpl. rewrite u_parts_of_g', Hpre, Nat.eqb_refl. unfold seteq, subset. simpl. rewrite Nat.eqb_refl. reflexivity.
+Qed.
+
+Lemma u_gok_B : group_ok g' B = true.
+Proof.
+  destruct u_t as [T1 [T2 T3]].
+  unfold group_ok, B. simpl. apply andb_true_iff. split; [apply andb_true_iff; split|].
+  - apply subset_In. intros o Ho. unfold ks' in Ho. apply In_remove_p in Ho. apply In_remove_p. split; [apply T1|]; tauto.
+  - apply subset_In. intros o Ho. apply In_remove_p in Ho. apply In_remove_p. split; [apply T2|]; tauto.
+  - apply forallb_forall. intros o Ho. apply In_remove_p in Ho. destruct Ho as [Ho No].
+    assert (Hk : In o ks) by (apply T3; exact Ho).
+    assert (Ek : mem o ks = true) by (apply mem_In; exact Hk).
+    assert (Eq : Nat.eqb o q = false) by (apply Nat.eqb_neq; exact No).
+    assert (Ep : mem o (ikeys pre) = false).
+    { destruct (mem o (ikeys pre)) eqn:E; auto. apply mem_In in E. exfalso. eapply u_pre_disjoint; eauto. }
+    rewrite u_mem_keys, u_keys_g, !mem_app, Ek, orb_true_r. simpl.
+    rewrite u_parts_of_g', Ep, Eq, Ek. unfold seteq. rewrite andb_diag. apply subset_In. auto.
+Qed.
+
+Theorem unshare_parts_ok : imp_parts_ok g' = true.
+Proof.
+  unfold imp_parts_ok. rewrite u_nodup_g'. simpl.
+  unfold g'. rewrite forallb_app. cbn [forallb].
+  change (pre ++ A :: B :: post) with g'. rewrite u_gok_A, u_gok_B. simpl.
+  apply andb_true_iff. split; apply forallb_forall; intros gr Hin; apply u_gok_other; auto.
+Qed.
+
+Theorem unshare_kind_ok : forallb group_kind_ok g' = true.
+Proof.
+  destruct u_t as [T1 [T2 T3]].
+  pose proof HK as HK'. unfold g in HK'. rewrite forallb_app in HK'. cbn [forallb] in HK'.
+  apply andb_true_iff in HK'. destruct HK' as [K1 K2]. apply andb_true_iff in K2. destruct K2 as [_ K3].
+  unfold g'. rewrite forallb_app. cbn [forallb]. rewrite K1, K3. simpl. rewrite andb_true_r.
+  unfold A, B.
+  apply kind_ok_intro; [exact Hne|]. simpl. intros o Ho. apply In_remove_p in Ho. destruct Ho as [Ho No].
+  unfold ks'. apply In_remove_p. split; auto.
+Qed.
+
+Theorem unshare_keys_ok : forall mode, imp_keys_ok mode g = true -> imp_keys_ok mode g' = true.
+Proof.
+  intros mode H. unfold imp_keys_ok in *. unfold g in H. rewrite forallb_app in H. cbn [forallb] in H.
+  apply andb_true_iff in H. destruct H as [H1 H2]. apply andb_true_iff in H2. destruct H2 as [Ht H3].
+  unfold g'. rewrite forallb_app. cbn [forallb]. rewrite H1, H3. simpl. rewrite andb_true_r.
+  apply andb_true_iff. split.
+  - unfold A. simpl. rewrite orb_false_r. unfold subset. simpl. destruct (mem q mode); reflexivity.
+  - unfold B. simpl. rewrite andb_true_r. simpl in Ht. apply orb_true_iff in Ht. apply orb_true_iff.
+    destruct (existsb (fun q0 => mem q0 mode) ks') eqn:E; [right|left; reflexivity].
+    destruct Ht as [Ht|Ht].
+    + apply negb_true_iff in Ht. apply existsb_exists in E. destruct E as [x [Hx Hm]].
+      assert (existsb (fun q0 => mem q0 mode) ks = true).
+      { apply existsb_exists. exists x. split; auto. unfold ks' in Hx. apply In_remove_p in Hx. tauto. }
+      congruence.
+    + rewrite subset_In in Ht. apply subset_In. intros o Ho. apply In_remove_p in Ho. apply Ht. tauto.
+Qed.
+End Unshare.
+
+Lemma shape_kind_ok : forall g g', map shape g = map shape g' -> forallb group_kind_ok g = forallb group_kind_ok g'.
+Proof.
+  induction g as [|[ks t] r IH]; intros [|[ks' t'] r'] H; simpl in H; try discriminate; auto.
+  inversion H. subst. simpl. unfold group_kind_ok at 1 3. simpl. rewrite H2. f_equal. apply IH. assumption.
+Qed.
+
+Lemma map_shape_app : forall a b, map shape (a ++ b) = map shape a ++ map shape b.
+Proof. intros. apply map_app. Qed.
+
+(* importance.<particle> = v on a particle that has a tree keeps the structure, shared tree or not *)
+Lemma iset_existing_struct : forall mode q v g,
+  imp_parts_ok g = true -> forallb group_kind_ok g = true -> imp_keys_ok mode g = true ->
+  mem q (ikeys g) = true ->
+  imp_parts_ok (iset_existing q v g) = true /\ forallb group_kind_ok (iset_existing q v g) = true /\
+  imp_keys_ok mode (iset_existing q v g) = true.
+Proof.
+  intros mode q v g HP HK HM Hq.
+  destruct (iset_existing_decomp q v g Hq) as [pre [ks [t [post [Eg [Hk [Hpre Er]]]]]]].
+  destruct (remove_p q ks) as [|k1 kr] eqn:Ek.
+  - assert (Sh : map shape (iset_existing q v g) = map shape g).
+    { rewrite Er. unfold unshared. rewrite Ek, Eg, !map_shape_app. reflexivity. }
+    rewrite (shape_imp_parts_ok _ _ Sh), (shape_kind_ok _ _ Sh), (shape_imp_keys_ok mode _ _ Sh). auto.
+  - assert (Hne : remove_p q ks <> []) by (rewrite Ek; discriminate).
+    assert (Eu : iset_existing q v g =
+                 pre ++ ([q], mkT v [q] [q])
+                        :: (remove_p q ks, mkT (t_val t) (remove_p q (t_parts t)) (remove_p q (t_order t))) :: post).
+    { rewrite Er. unfold unshared. rewrite Ek. reflexivity. }
+    rewrite Eu. subst g.
+    split; [|split].
+    + apply unshare_parts_ok; auto.
+    + apply unshare_kind_ok; auto.
+    + apply unshare_keys_ok; auto.
+Qed.
+
+Lemma append_fresh_kind_ok : forall g q v, forallb group_kind_ok g = true ->
+  forallb group_kind_ok (g ++ [([q], mkT v [q] [q])]) = true.
+Proof. intros. rewrite forallb_app, H. reflexivity. Qed.
+
+Lemma iset_struct : forall l m mode q v g,
+  imp_parts_ok g = true -> forallb group_kind_ok g = true -> imp_keys_ok mode g = true ->
+  imp_parts_ok (iset l m q v g) = true /\ forallb group_kind_ok (iset l m q v g) = true /\
+  imp_keys_ok mode (iset l m q v g) = true.
+Proof.
+  intros l m mode q v g HP HK HM. unfold iset. destruct (mem q (ikeys g)) eqn:Ek.
+  - apply iset_existing_struct; auto.
+  - split; [|split].
+    + apply append_fresh_parts_ok; auto.
+    + apply append_fresh_kind_ok; auto.
+    + apply append_fresh_keys_ok; auto.
+Qed.
+
+Lemma iset_all_struct : forall mode' mode v g,
+  imp_parts_ok g = true -> forallb group_kind_ok g = true -> imp_keys_ok mode g = true ->
+  imp_parts_ok (iset_all mode' v g) = true /\ forallb group_kind_ok (iset_all mode' v g) = true /\
+  imp_keys_ok mode (iset_all mode' v g) = true.
+Proof.
+  intros mode' mode v. unfold iset_all. induction mode' as [|q r IH]; simpl; intros g HP HK HM; auto.
+  destruct (mem q (ikeys g)) eqn:Ek.
+  - pose proof (iupd_shape q v g) as Sh. apply IH.
+    + rewrite (shape_imp_parts_ok _ _ Sh). exact HP.
+    + rewrite (shape_kind_ok _ _ Sh). exact HK.
+    + rewrite (shape_imp_keys_ok mode _ _ Sh). exact HM.
+  - apply IH.
+    + apply append_fresh_parts_ok; auto.
+    + apply append_fresh_kind_ok; auto.
+    + apply append_fresh_keys_ok; auto.
+Qed.
+
+Lemma plain_kind_ok : forall g, forallb plain_group g = true -> forallb group_kind_ok g = true.
+Proof.
+  intros g H. apply forallb_forall. intros gr Hin. rewrite forallb_forall in H.
+  destruct (plain_group_inv _ (H gr Hin)) as [k [v ->]]. reflexivity.
+Qed.
+
+
+Definition target_cond (P : list igroup -> bool) (s : state) (t : target) : bool :=
+  match t with
+  | TScratch => match s_scratch s with Some (c, _) => P (c_imp c) | None => true end
+  | TCell n => match find_cell n (s_cells s) with Some c => P (c_imp c) | None => true end
+  end.
+
+(* the one restriction: an importance is deleted (del cell.importance.<particle>) only on a cell whose trees are
+   plain, i.e. each labelled with its own particle only (a cell made by Cell(), a cell fed by one-particle data
+   cards); deleting a particle that shares a tree or whose tree names other particles leaves a stale classifier
+   entry, which the proof does not follow.  Every other statement is unrestricted, importance.<particle> = v
+   (with _unshare_tree) and importance.all = v included. *)
 Definition safe_op (s : state) (o : op) : bool :=
   match o with
-  | OSetImp t _ _ | ODelImp t _ | OSetAll t _ => target_plain s t
+  | ODelImp t _ => target_cond plainok s t
   | _ => true
   end.
 Fixpoint all_safe (s : state) (ops : list op) : bool :=
@@ -2122,7 +2622,8 @@ Fixpoint all_safe (s : state) (ops : list op) : bool :=
 
 Lemma plainok_struct_ok : forall mode c, plainok (c_imp c) = true -> struct_ok mode c = true.
 Proof.
-  intros mode c H. unfold struct_ok. destruct (plainok_struct mode _ H) as [A B]. rewrite A, B. reflexivity.
+  intros mode c H. unfold struct_ok. destruct (plainok_struct mode _ H) as [A B]. rewrite A, B.
+  unfold plainok in H. apply andb_true_iff in H. destruct H as [H _]. rewrite (plain_kind_ok _ H). reflexivity.
 Qed.
 
 Lemma struct_ok_same_imp : forall mode c c', c_imp c' = c_imp c -> struct_ok mode c' = struct_ok mode c.
@@ -2142,44 +2643,45 @@ Lemma forallb_In : forall {A} (P : A -> bool) l x, forallb P l = true -> In x l 
 Proof. intros A P l x H Hin. rewrite forallb_forall in H. auto. Qed.
 
 (* an edit keeps struct_ok, given that the cell is plain when the edit touches the importance *)
-Definition edit_keeps (e : edit) (needs_plain : bool) : Prop :=
-  forall l mode c c', e l mode c = Ok c' -> struct_ok mode c = true ->
-    (needs_plain = true -> plainok (c_imp c) = true) -> struct_ok mode c' = true.
+Definition edit_keeps (e : edit) (P : list igroup -> bool) : Prop :=
+  forall l mode c c', e l mode c = Ok c' -> struct_ok mode c = true -> P (c_imp c) = true -> struct_ok mode c' = true.
 
-Lemma apply_edit_sstruct : forall s t e s' np, edit_keeps e np ->
-  (np = true -> target_plain s t = true) ->
+Lemma apply_edit_sstruct : forall s t e s' P, edit_keeps e P ->
+  target_cond P s t = true ->
   apply_edit s t e = Ok s' -> sstruct s = true -> sstruct s' = true.
 Proof.
-  intros s t e s' np He Hp H S. unfold sstruct in *. apply andb_true_iff in S. destruct S as [Sc Ss].
+  intros s t e s' P He Hp H S. unfold sstruct in *. apply andb_true_iff in S. destruct S as [Sc Ss].
   unfold apply_edit in H. destruct t as [|n].
   - destruct (s_scratch s) as [[c l]|] eqn:Es; try discriminate.
     destruct (e l (s_mode s) c) as [c'|] eqn:Ee; try discriminate. inversion H; subst; clear H. simpl.
-    rewrite Sc. simpl. eapply He; eauto. intro N. specialize (Hp N). simpl in Hp. rewrite Es in Hp. exact Hp.
+    rewrite Sc. simpl. eapply He; eauto. simpl in Hp. rewrite Es in Hp. exact Hp.
   - destruct (find_cell n (s_cells s)) as [c|] eqn:Ef; try discriminate.
     destruct (e true (s_mode s) c) as [c'|] eqn:Ee; try discriminate. inversion H; subst; clear H. simpl.
     rewrite Ss, andb_true_r. apply upd_cell_forallb; auto.
     eapply He; eauto.
     + eapply forallb_In; eauto. eapply find_cell_In; eauto.
-    + intro N. specialize (Hp N). simpl in Hp. rewrite Ef in Hp. exact Hp.
+    + simpl in Hp. rewrite Ef in Hp. exact Hp.
 Qed.
 
-Lemma keeps_set_imp : forall q v, edit_keeps (e_set_imp q v) true.
+Lemma keeps_set_imp : forall q v, edit_keeps (e_set_imp q v) (fun _ => true).
 Proof.
-  intros q v l mode c c' H _ Hp. unfold e_set_imp in H. destruct (andb l (negb (mem q mode))); inversion H.
-  apply plainok_struct_ok. simpl. apply iset_plainok. auto.
+  intros q v l mode c c' H S _. unfold e_set_imp in H. destruct (andb l (negb (mem q mode))); inversion H.
+  unfold struct_ok in *. apply andb_true_iff in S. destruct S as [S1 S2]. apply andb_true_iff in S2. destruct S2 as [S2 S3].
+  simpl. destruct (iset_struct l mode mode q v (c_imp c) S1 S2 S3) as [A [B C]]. rewrite A, B, C. reflexivity.
 Qed.
-Lemma keeps_del_imp : forall q, edit_keeps (e_del_imp q) true.
+Lemma keeps_del_imp : forall q, edit_keeps (e_del_imp q) plainok.
 Proof.
   intros q l mode c c' H _ Hp. unfold e_del_imp in H. destruct (mem q (ikeys (c_imp c))); inversion H.
   apply plainok_struct_ok. simpl. apply idel_plainok. auto.
 Qed.
-Lemma keeps_set_all : forall v, edit_keeps (e_set_all v) true.
+Lemma keeps_set_all : forall v, edit_keeps (e_set_all v) (fun _ => true).
 Proof.
-  intros v l mode c c' H S Hp. unfold e_set_all in H. destruct l; inversion H; subst; auto.
-  apply plainok_struct_ok. simpl. apply iset_all_plainok. auto.
+  intros v l mode c c' H S _. unfold e_set_all in H. destruct l; inversion H; subst; auto.
+  unfold struct_ok in *. apply andb_true_iff in S. destruct S as [S1 S2]. apply andb_true_iff in S2. destruct S2 as [S2 S3].
+  simpl. destruct (iset_all_struct mode mode v (c_imp c) S1 S2 S3) as [A [B C]]. rewrite A, B, C. reflexivity.
 Qed.
 Lemma keeps_other : forall (e : edit),
-  (forall l mode c c', e l mode c = Ok c' -> c_imp c' = c_imp c) -> edit_keeps e false.
+  (forall l mode c c', e l mode c = Ok c' -> c_imp c' = c_imp c) -> edit_keeps e (fun _ => true).
 Proof.
   intros e H l mode c c' He S _. rewrite (struct_ok_same_imp mode c c'); auto. eapply H; eauto.
 Qed.
@@ -2207,18 +2709,20 @@ Proof.
     destruct (nodupb ns); inversion E; subst. unfold sstruct in *. simpl.
     apply andb_true_iff in S. destruct S as [Sc Ss]. rewrite Ss, andb_true_r.
     apply forallb_forall. intros x Hx. eapply forallb_In; eauto. eapply pick_cells_In; eauto.
-  - eapply (apply_edit_sstruct s t _ s' true (keeps_set_imp q v)); eauto.
-  - eapply (apply_edit_sstruct s t _ s' true (keeps_del_imp q)); eauto.
-  - eapply (apply_edit_sstruct s t _ s' true (keeps_set_all v)); eauto.
-  - eapply (apply_edit_sstruct s t _ s' false); eauto; [apply keeps_other|discriminate].
+  - eapply (apply_edit_sstruct s t _ s' (fun _ => true) (keeps_set_imp q v)); eauto.
+    destruct t; simpl; [destruct (s_scratch s) as [[? ?]|]|destruct (find_cell n (s_cells s))]; reflexivity.
+  - eapply (apply_edit_sstruct s t _ s' plainok (keeps_del_imp q)); eauto.
+  - eapply (apply_edit_sstruct s t _ s' (fun _ => true) (keeps_set_all v)); eauto.
+    destruct t; simpl; [destruct (s_scratch s) as [[? ?]|]|destruct (find_cell n (s_cells s))]; reflexivity.
+  - eapply (apply_edit_sstruct s t _ s' (fun _ => true)); eauto; [apply keeps_other|destruct t; simpl; [destruct (s_scratch s) as [[? ?]|]|destruct (find_cell n (s_cells s))]; reflexivity].
     intros l mode c c' H. unfold e_set_vol in H. inversion H. reflexivity.
-  - eapply (apply_edit_sstruct s t _ s' false); eauto; [apply keeps_other|discriminate].
+  - eapply (apply_edit_sstruct s t _ s' (fun _ => true)); eauto; [apply keeps_other|destruct t; simpl; [destruct (s_scratch s) as [[? ?]|]|destruct (find_cell n (s_cells s))]; reflexivity].
     intros l mode c c' H. unfold e_del_vol in H. inversion H. reflexivity.
-  - eapply (apply_edit_sstruct s t _ s' false); eauto; [apply keeps_other|discriminate].
+  - eapply (apply_edit_sstruct s t _ s' (fun _ => true)); eauto; [apply keeps_other|destruct t; simpl; [destruct (s_scratch s) as [[? ?]|]|destruct (find_cell n (s_cells s))]; reflexivity].
     intros l mode c c' H. unfold e_set_u in H. inversion H. reflexivity.
-  - eapply (apply_edit_sstruct s t _ s' false); eauto; [apply keeps_other|discriminate].
+  - eapply (apply_edit_sstruct s t _ s' (fun _ => true)); eauto; [apply keeps_other|destruct t; simpl; [destruct (s_scratch s) as [[? ?]|]|destruct (find_cell n (s_cells s))]; reflexivity].
     intros l mode c c' H. unfold e_set_lat in H. inversion H. reflexivity.
-  - eapply (apply_edit_sstruct s t _ s' false); eauto; [apply keeps_other|discriminate].
+  - eapply (apply_edit_sstruct s t _ s' (fun _ => true)); eauto; [apply keeps_other|destruct t; simpl; [destruct (s_scratch s) as [[? ?]|]|destruct (find_cell n (s_cells s))]; reflexivity].
     intros l mode c c' H. unfold e_set_fill in H. inversion H. reflexivity.
 Qed.
 
@@ -2232,11 +2736,13 @@ Lemma sstruct_clean : forall s, sstruct s = true -> imp_data_ok s = true -> fill
 Proof.
   intros s S D F. unfold clean. rewrite D, F, !andb_true_r.
   unfold imp_cell_ok. apply orb_true_iff. right. unfold sstruct in S. apply andb_true_iff in S. destruct S as [Sc _].
-  exact Sc.
+  apply forallb_forall. intros c Hin. pose proof (forallb_In _ _ _ Sc Hin) as X. unfold struct_ok in X.
+  apply andb_true_iff in X. destruct X as [X1 X2]. apply andb_true_iff in X2. destruct X2 as [_ X3].
+  rewrite X1, X3. reflexivity.
 Qed.
 
-(* histories with every kind of statement: if importances are only edited on plain cells, the final state is
-   written exactly once whenever MontePy does not refuse it *)
+(* histories with every kind of statement: unless an importance is deleted on a cell with shared or jointly
+   labelled trees, the final state is written exactly once whenever MontePy does not refuse it *)
 Theorem safe_history : forall s ops, wf s -> sstruct s = true -> all_safe s ops = true ->
   imp_data_ok (run_ops s ops) = true -> fill_ok (run_ops s ops) = true -> exactly_once (run_ops s ops).
 Proof.
